@@ -410,6 +410,12 @@ static __always_inline int parse_packet_headers(struct xdp_md *ctx,
 	if (pkt->ip->protocol != IPPROTO_UDP)
 		return -1;
 
+	/* The reply is built in place with a 20-byte IP header (ip_checksum,
+	 * tot_len, udp len, adjust_tail): requests carrying IP options, or a
+	 * bogus IHL, go to the slow path */
+	if (pkt->ip->ihl != 5)
+		return -1;
+
 	/* Parse UDP header (account for IP header length) */
 	pkt->udp = (void *)pkt->ip + (pkt->ip->ihl * 4);
 	if ((void *)(pkt->udp + 1) > data_end)
